@@ -317,6 +317,7 @@ func init() {
 		rule: "declarations with rich initial values (strings with surrounding blanks, quotes, backslashes, control, non-ASCII and invalid bytes; numeric limits; nil/empty/filled slices, maps, pointers), optional parse, write with each of the 8 IniOptions, read into a fresh parser over the same declaration, apply defaults, compare every written option; distinct per written text; plus mixed ini operations for the model tie",
 		run: func(c *Ctx) {
 			checkC12(c, budget(c.Tier, 400, 40000))
+			checkC12DefaultChanged(c, budget(c.Tier, 60, 2000))
 			runMixedCases(c, budget(c.Tier, 150, 15000), defaultProfile, []string{"parse", "iniparse", "iniwrite"}, 3, func(cr *CaseResult) { oracleNoPanic(c, cr) })
 		}}
 	props["C14"] = propRun{
